@@ -71,6 +71,7 @@ func findFrom(hay, needle string, from int) int {
 
 func check(c *core.Ctx, s string) {
 	c.Eval(1)
+	c.Note(func() interface{} { return kase{util.Q(s)} })
 	var out string
 	if p := core.Recover(func() { out = safehtml.URLSetSanitized(s).String() }); p != nil {
 		c.Violation(kase{util.Q(s)}, "URLSetSanitized panicked on %+q: %v", s, p)
